@@ -11,7 +11,10 @@ def attach(run):
     mons = []
     cl = run.cl
     if cl & {"C01.a", "C01.b", "C01.content"}:
-        mons.append(StoreMonitor(run))
+        if hasattr(run.adapter, "collectors"):
+            mons.append(DatasetMonitor(run))
+        elif getattr(run.adapter, "stores", True):
+            mons.append(StoreMonitor(run))
     if cl & {"C01.c", "C01.d", "C10.a", "C10.e", "C13.a"}:
         mons.append(ActMonitor(run))
     if cl & {"C11.a", "C11.b", "C11.c", "C11.e"}:
@@ -164,12 +167,118 @@ class StoreMonitor:
             run.res.fault("one_step_episode")
 
 
+class DatasetMonitor:
+    """C01.a/b for on-policy collectors: every kept row belongs to one env-log entry of one
+    environment, every env step of the collection window is kept exactly once, rows of one
+    environment appear in time order (memory layout is not demanded)."""
+
+    def __init__(self, run):
+        self.run = run
+
+    def rows_ok(self, where, env, first, obs, act, rew, nobs=None, term=None, trunc=None):
+        run = self.run
+        steps = env.steps()
+        T = len(obs)
+        if first + T > len(steps):
+            run.V("C01.a", f"{where}: {T} rows kept but only {len(steps) - first} environment steps were executed in the collection window")
+            return False
+        final_obs = {s["gid1"]: s for s in steps if s["term"] or s["trunc"]}
+        for t in range(T):
+            s = steps[first + t]
+            g0 = obs_gid(np.asarray(obs[t]).reshape(-1))
+            if g0 != s["gid0"]:
+                if g0 in final_obs and s["t"] == 0:
+                    run.V("C01.b", f"{where} row {t}: starts from observation #{g0}, the FINAL observation of the previous episode; env step {s['i']} started from the reset observation #{s['gid0']}")
+                else:
+                    run.V("C01.a", f"{where} row {t}: observation #{g0}, but env step {s['i']} of that environment started from #{s['gid0']}")
+                return False
+            a_env = np.asarray(s["a"], dtype=np.float64).reshape(-1)
+            a_st = np.asarray(act[t], dtype=np.float64).reshape(-1)
+            if a_env.shape != a_st.shape or not np.array_equal(a_env, a_st):
+                run.V("C01.d", f"{where} row {t}: kept action {a_st} != action passed to the environment {a_env} (env step {s['i']})")
+                return False
+            if float(np.asarray(rew[t])) != float(s["r"]):
+                run.V("C01.a", f"{where} row {t}: kept reward {float(np.asarray(rew[t]))} != {s['r']} (env step {s['i']})")
+                return False
+            if nobs is not None and obs_gid(np.asarray(nobs[t]).reshape(-1)) != s["gid1"]:
+                run.V("C01.a", f"{where} row {t}: successor observation #{obs_gid(np.asarray(nobs[t]).reshape(-1))} != #{s['gid1']} returned by env step {s['i']}")
+                return False
+            if term is not None and int(np.asarray(term[t])) != int(s["term"]):
+                run.V("C01.a", f"{where} row {t}: kept termination flag {int(np.asarray(term[t]))} != {s['term']} (env step {s['i']})")
+                return False
+            if trunc is not None and int(np.asarray(trunc[t])) != int(s["trunc"]):
+                run.V("C01.a", f"{where} row {t}: kept truncation flag {int(np.asarray(trunc[t]))} != {s['trunc']} (env step {s['i']})")
+                return False
+        run.res.probe("stored_rows_checked", T)
+        if any(steps[first + t]["t"] == 0 and first + t > 0 for t in range(T)):
+            run.res.probe("stored_first_transition_after_reset")
+        return True
+
+    def finish(self):
+        run = self.run
+        kind = run.adapter.kind
+        envs = run.sub_envs()
+        for n, (first, last, out) in enumerate(getattr(run, "datasets", [])):
+            where = f"{run.adapter.collectors[0][1]} call {n}"
+            if kind == "episodes":
+                rows = [r for ep in out.episodes for r in ep]
+                if len(rows) != last[0] - first[0]:
+                    run.V("C01.a", f"{where}: {len(rows)} rows kept, {last[0] - first[0]} environment steps executed in that window")
+                    return
+                if not self.rows_ok(where, envs[0], first[0], [r[0] for r in rows], [r[1] for r in rows], [r[3] for r in rows], nobs=[r[2] for r in rows]):
+                    return
+                # episode partition
+                steps = envs[0].steps()
+                i = first[0]
+                for ep in out.episodes:
+                    if not ep:
+                        continue
+                    if steps[i]["t"] != 0 or not (steps[i + len(ep) - 1]["term"] or steps[i + len(ep) - 1]["trunc"]) or any(
+                            steps[j]["term"] or steps[j]["trunc"] for j in range(i, i + len(ep) - 1)):
+                        run.V("C01.a", f"{where}: an episode record of {len(ep)} rows is not exactly one environment episode (starts at step {steps[i]['t']} of episode {steps[i]['ep']})")
+                        return
+                    i += len(ep)
+                if len([e for e in out.episodes if e]) > 1:
+                    run.res.probe("dataset_with_several_episodes")
+            elif kind == "rollout_time_major":
+                buf = out[0]
+                b = buf.buffer
+                T = len(buf)
+                for e, env in enumerate(envs):
+                    if T != last[e] - first[e]:
+                        run.V("C01.a", f"{where} env {e}: {T} rows kept, {last[e] - first[e]} steps executed")
+                        return
+                    if not self.rows_ok(f"{where} env {e}", env, first[e], b["obs"][:T, e], b["actions"][:T, e], b["rewards"][:T, e],
+                                        term=b["terminations"][:T, e], trunc=b["truncations"][:T, e]):
+                        return
+            elif kind == "rollout_env_major":
+                N = len(envs)
+                obs = np.asarray(out.observation)
+                T = obs.shape[0] // N
+                act = np.asarray(out.action).reshape(N, T, -1)
+                rew = np.asarray(out.reward).reshape(N, T)
+                term = np.asarray(out.terminated).reshape(N, T)
+                obs = obs.reshape(N, T, -1)
+                for e, env in enumerate(envs):
+                    if T != last[e] - first[e]:
+                        run.V("C01.a", f"{where} env {e}: {T} rows kept, {last[e] - first[e]} steps executed")
+                        return
+                    if not self.rows_ok(f"{where} env {e}", env, first[e], obs[e], act[e], rew[e], term=term[e]):
+                        return
+            run.res.probe("datasets_checked")
+        if len(envs) > 1:
+            run.res.fault("parallel_environments")
+        for env in envs:
+            if any(s["t"] == 0 and (s["term"] or s["trunc"]) for s in env.steps()):
+                run.res.fault("one_step_episode")
+
+
 class ActMonitor:
     """C01.c/d, C10.a/e, C13.a at the instant of env.step."""
 
     def __init__(self, run):
         self.run = run
-        self.mod = run.adapter.acting(run)
+        self.mod = run.adapter.acting(run) if not run.adapter.vector else None
         if self.mod is not None:
             probe(self.mod, "acting", run.recorder, getattr(run.adapter, "acting_method", "__call__"))
         run.check_acting = self.check
@@ -266,7 +375,7 @@ class BudgetMonitor:
     def finish(self):
         run = self.run
         ad = run.adapter
-        for p in run.env.protocol:
+        for p in [q for e in run.sub_envs() for q in e.protocol]:
             if p["kind"] == "step_after_end":
                 run.V("C11.c", f"env.step() called after episode {p['ep']} had ended, without reset (env step {p['at_step']})")
                 break
@@ -280,6 +389,16 @@ class BudgetMonitor:
             budget = max(0, T - c["start"])
             E = link.get("total_episodes")
             ex = c["executed"]
+            if getattr(ad, "episodes_only", False):
+                E = E or run.plan["cfg"].get("total_episodes")
+                stopped = getattr(getattr(run, "cmaes_result", None), "stopped", False)
+                if c["episodes"] > E or (c["episodes"] < E and not stopped):
+                    run.V("C11.b", f"{c['episodes']} episodes executed, total_episodes={E}, stopped={stopped}")
+                else:
+                    run.res.fault("episode_limit_exit")
+                if not c["last_done"] and ex:
+                    run.V("C11.b", "the last executed step did not end an episode")
+                continue
             if ex > budget:
                 run.V("C11.a", f"executed {ex} environment steps with total_timesteps={T}, global_step={c['start']} (remaining budget {budget})")
             elif E is None and ex < budget and ad.stops_exactly:
